@@ -183,6 +183,36 @@ def pool(r, quick):
         w = r.randint(1, 3)
         doc["alleles"][f"{doc['name']}*77.001"] = {"mutations": [[p, f"del{seq[p - 1:p - 1 + w]}ins{''.join(r.choice('ACGT') for _ in range(r.randint(1, 3)))}", "-", "functional"]]}
         y = yaml.safe_dump(doc, sort_keys=False, default_flow_style=None)
+        # multi-base variants at and next to the gaps of the RefSeq-to-genome alignment (either build, either strand):
+        # the loader must refuse those that straddle a gap and keep those that merely lie beside it
+        if any(re.search(r"[ID]", m[4]) for m in doc["reference"]["mappings"].values()):
+            lo = L // 2 + 2 if len(doc["structure"]["genes"]) > 1 else 2
+            k = 0
+            for genome in ("hg19", "hg38"):
+                try:
+                    g0 = gen_gene.load(y, genome)
+                except Exception:
+                    continue
+                r2c = g0.ref_to_chr
+                breaks = [q for q in sorted(r2c) if lo <= q < L - 5 and r2c.get(q + 1) != r2c[q] + g0.strand]
+                for b in breaks[:2]:
+                    for _ in range(3):
+                        w = r.choice([2, 3])
+                        st = b + r.randint(-w - 1, 1) + 1          # 1-based RefSeq start
+                        if st < lo or st + w >= L:
+                            continue
+                        ref = seq[st - 1:st - 1 + w]
+                        kind = r.choice(["del", "mnp", "delins"])
+                        if kind == "del":
+                            op = "del" + ref
+                        elif kind == "mnp":
+                            op = ref + ">" + "".join(gen_gene.COMP[c] for c in ref)
+                        else:
+                            op = "del" + ref + "ins" + "".join(r.choice("ACGT") for _ in range(r.randint(1, 2)))
+                        k += 1
+                        doc["alleles"][f"{doc['name']}*{80 + k}.001"] = {"mutations": [[st, op, "-", "functional"]]}
+            if k:
+                y = yaml.safe_dump(doc, sort_keys=False, default_flow_style=None)
         for genome in ("hg19", "hg38"):
             out.append({"kind": "generated", "genome": genome, "yaml": y})
     return out
